@@ -30,6 +30,8 @@ from pyvc.verify import run_task  # noqa: E402
 
 NATIVE_PY = "/venv/bin/python"
 REPO = os.environ.get("VERIF_REPO", "/repo")
+# evidence / replays of a run against a scratch copy (mutant self-test) never overwrite the records of /repo
+OUT = VERIF if os.path.realpath(REPO) == "/repo" else os.path.join(VERIF, ".scratch")
 
 
 class Task:
@@ -336,11 +338,11 @@ def run_check(mod, prop, tier, seed, a, t0):
             bounded_viol.append((b, v))
 
     # ---- report
-    os.makedirs(os.path.join(VERIF, "replays"), exist_ok=True)
-    os.makedirs(os.path.join(VERIF, "evidence"), exist_ok=True)
-    for fn in os.listdir(os.path.join(VERIF, "replays")):
+    os.makedirs(os.path.join(OUT, "replays"), exist_ok=True)
+    os.makedirs(os.path.join(OUT, "evidence"), exist_ok=True)
+    for fn in os.listdir(os.path.join(OUT, "replays")):
         if fn.startswith(pid + "_") and fn.endswith(".json"):
-            os.unlink(os.path.join(VERIF, "replays", fn))
+            os.unlink(os.path.join(OUT, "replays", fn))
     violations = 0
     kf_by_id = {e["id"]: e for e in known}
     for kid, where in sorted(known_hits.items()):
@@ -375,7 +377,7 @@ def run_check(mod, prop, tier, seed, a, t0):
                         rp["reproduced"] = False
             except Exception:
                 rp["replay_error"] = traceback.format_exc()
-        path = os.path.join(VERIF, "replays", f"{pid}_{key[0]}_{v['name']}.json".replace("/", "_"))
+        path = os.path.join(OUT, "replays", f"{pid}_{key[0]}_{v['name']}.json".replace("/", "_"))
         with open(path, "w") as f:
             json.dump(rp, f, indent=1, default=str)
         print(f"VIOLATION property={pid} replay={path}{suffix}")
@@ -383,7 +385,7 @@ def run_check(mod, prop, tier, seed, a, t0):
             print("   model:", str({k: x for k, x in (v["model"] or {}).items() if k != "__observed__"})[:400])
     for b, v in bounded_viol:
         violations += 1
-        path = os.path.join(VERIF, "replays", f"{pid}_bounded_{b.name}_{violations}.json")
+        path = os.path.join(OUT, "replays", f"{pid}_bounded_{b.name}_{violations}.json")
         with open(path, "w") as f:
             json.dump({"property": pid, "obligation": "bounded." + b.name, "family": b.family,
                        "native_case": v.get("case"), "observed": v, "reproduced": True}, f, indent=1, default=str)
@@ -449,7 +451,7 @@ def run_check(mod, prop, tier, seed, a, t0):
         "wall_s": round(time.time() - t0, 2),
         "violations": violations,
     }
-    with open(os.path.join(VERIF, "evidence", f"{pid}.json"), "w") as f:
+    with open(os.path.join(OUT, "evidence", f"{pid}.json"), "w") as f:
         json.dump(ev, f, indent=1, default=str)
     print(f"{pid}: tier={tier} obligations={n_vc} discharged={n_dis} (named {len(names)}) paths={ev['coverage']['paths']} "
           f"witnesses_replayed={xchk['replayed']} violations={violations} undecided={len(unknown)} "
